@@ -7,6 +7,9 @@ ids = [p["id"] for p in props]
 
 # id -> (category, technique, text, note, design_ref)
 claimed = {
+ "C01": ("model_checking", "exhaustive peer-script x configuration x map-order enumeration (nd explorer) with instrumented StreamFeature callbacks; invariants on every execution",
+         "10 feature archetypes with logging List/Parse/Negotiate callbacks; every configuration of <=2 (quick) / <=3 (thorough) archetypes x initial state x c2s/s2s x TCP/WebSocket; initiator: every sequence of <=2 (3) advertisements with each feature absent/present/required(/twice) and the selection loop's map iteration order enumerated (the loop is rewritten at check time to ask the explorer); receiver: every sequence of <=3 (4) selections incl. unadvertised, unknown, repeated, informational, bare or IQ-wrapped. Invariants: prerequisites at call time, advertised on the current stream, at most once, voluntary before mandatory, monotone state, restart => fresh header, established => ready and nothing mandatory pending, receiver advertises exactly the eligible features and refuses invalid selections without running them; non-terminating negotiation is reported.",
+         "Trusted: the invariant checker; reactive scripted peer; map order owned through the check-time source rewrite (go build -overlay), nothing else in the library is altered.", "6/C01"),
  "C12": ("model_checking", "exhaustive peer-script enumeration (nd explorer) with real library instances on both ends of a scripted in-memory connection",
          "Emitted headers for every (own address incl. quotes/&/<>, domain, language, c2s/s2s, TCP/WebSocket) are checked for well-formedness and parsed by a receiving library instance, whose answer is parsed by another initiating instance (same to/from/id/version/lang/xmlns); every incoming start element over names x prefix binding x xmlns x versions x id x address shapes on both roles and framings is accepted only under the stated conditions; every sequence of <=3 headers across restarts with same/different/absent addresses; resource binding: 4 addresses x 14 scripted server replies, 4 callbacks x 3 requested resources x 1-2 sessions sharing a feature value.",
          "Trusted: encoding/xml; the peer is a reactive script (no goroutine). A receiving s2s session built through the public constructors refuses every first header naming a peer, so the s2s header is only checked for well-formedness and for what the receiver recovers.", "6/C12"),
